@@ -68,10 +68,26 @@ def solve(a, b, **kw):
         import scipy.linalg as _la
         return _la.solve(a, b, **kw)
     A, B = tomat(a), tomat(b)
+    # LAPACK's symmetric/hermitian/positive-definite drivers read ONE triangle only (scipy: `lower=False` -> the upper one)
+    asm = kw.get("assume_a", "gen")
+    if asm in ("sym", "symmetric", "her", "hermitian", "pos", "positive definite"):
+        low = bool(kw.get("lower", False))
+        herm = asm in ("her", "hermitian", "pos", "positive definite")
+        A2 = A.copy()
+        for i in range(A.rows):
+            for j in range(A.cols):
+                src = (max(i, j), min(i, j)) if low else (min(i, j), max(i, j))
+                v = A[src]
+                A2[i, j] = v if (i, j) == src or not herm else sp.conjugate(v)
+        A = A2
     if _singular(A):
         raise SingularMatrix("Matrix is singular.")
-    X = A.LUsolve(B)
-    X = X.applyfunc(_light)
+    if A.rows <= 3:
+        # Cramer: adj(A) b / det(A), left unsimplified (cancel over many complex symbols is far more expensive than the final numerator test)
+        X = (A.adjugate() * B) / A.det()
+    else:
+        X = A.LUsolve(B)
+        X = X.applyfunc(_light)
     return toarr(X, _np.asarray(b).shape)
 
 
